@@ -240,6 +240,7 @@ func New(pkgs []*packages.Package) *Engine {
 	e := &Engine{Pkgs: map[string]*packages.Package{}, funcs: map[*types.Func]*ast.FuncDecl{}, fpkg: map[*types.Func]*packages.Package{},
 		Specs: map[string]*spec.File{}, Structs: map[string][]spec.Field{}, Lists: map[string]spec.Type{}, stypes: map[string]types.Type{}, globals: map[types.Object]Val{}, extraFn: map[string]string{}, ufSig: map[string]string{}, unmodelled: map[string]int{}, writes: map[*types.Func]bool{}, logs: map[*types.Func]bool{}}
 	e.bind()
+	spec.EventDecls = map[string]string{} // event constructors are declared per engine (their sorts are this engine's structs)
 	for _, p := range pkgs {
 		e.Pkgs[p.PkgPath] = p
 		for _, f := range p.Syntax {
@@ -433,6 +434,19 @@ func (e *Engine) zero(ty spec.Type) *sx.T {
 		return sx.App("mk"+ty.Name, parts...)
 	}
 	panic("zero of " + ty.Sort())
+}
+
+// zeroGo is the zero value of a Go type: as zero(typeOf(t)), except that (dialect go64) the zero value of a pointer to a
+// struct is the nil pointer of that struct, not a struct of zero fields.
+func (e *Engine) zeroGo(t types.Type) *sx.T {
+	ty := e.typeOf(t)
+	if e.Go64 && ty.K == spec.KStruct {
+		if _, isPtr := t.Underlying().(*types.Pointer); isPtr {
+			spec.DeclareNilPtr(ty.Name)
+			return sx.Atom("nilp_" + ty.Name)
+		}
+	}
+	return e.zero(ty)
 }
 
 // Prelude returns declarations and axioms shared by all queries.
@@ -955,7 +969,7 @@ func (e *Engine) eval(fr *frame, st *State, x ast.Expr, k cont) {
 				if b, isBasic := tv.Type.(*types.Basic); !isBasic || b.Kind() != types.UntypedNil {
 					ty := e.typeOf(tv.Type)
 					if ty.K != spec.KUnit {
-						k(st, Val{TV: spec.TV{T: e.zero(ty), Ty: ty}})
+						k(st, Val{TV: spec.TV{T: e.zeroGo(tv.Type), Ty: ty}})
 						return
 					}
 				}
@@ -979,6 +993,18 @@ func (e *Engine) eval(fr *frame, st *State, x ast.Expr, k cont) {
 	case *ast.SelectorExpr:
 		if sel, ok := info.Selections[x]; ok && sel.Kind() == types.FieldVal {
 			e.eval(fr, st, x.X, func(st *State, v Val) {
+				if idx := sel.Index(); len(idx) > 1 {
+					// a field promoted from embedded structs: walk the path of embedded fields first
+					cur := sel.Recv()
+					for _, i := range idx[:len(idx)-1] {
+						if p, isPtr := cur.Underlying().(*types.Pointer); isPtr {
+							cur = p.Elem()
+						}
+						f := cur.Underlying().(*types.Struct).Field(i)
+						v = Val{TV: spec.TV{T: sx.App(v.Ty.Name+"_"+f.Name(), v.T), Ty: e.typeOf(f.Type())}}
+						cur = f.Type()
+					}
+				}
 				ft := e.typeOf(sel.Type())
 				t := sx.App(v.Ty.Name+"_"+x.Sel.Name, v.T)
 				if v.T.IsAtom() { // a named constructor application: project it directly
@@ -1042,6 +1068,10 @@ func (e *Engine) eval(fr *frame, st *State, x ast.Expr, k cont) {
 				// receives &x leaves x unconstrained afterwards (see havocAddressed)
 				if !e.Go64 {
 					panic("unary & outside dialect go64")
+				}
+				if v.Ty.K == spec.KStruct && v.T != nil && len(e.Structs[v.Ty.Name]) > 0 {
+					spec.DeclareNilPtr(v.Ty.Name) // the address of something is not nil
+					st.facts = append(st.facts, sx.Not(sx.App("isnilp_"+v.Ty.Name, v.T)))
 				}
 				k(st, v)
 			default:
@@ -1326,6 +1356,13 @@ func (e *Engine) binop(op token.Token, l, r Val) Val {
 			}
 		case spec.KAny:
 			t = sx.App("=", l.T, sx.Atom("AnyNull"))
+		case spec.KStruct:
+			if e.Go64 { // only pointers can be compared with nil: nil-ness is a predicate on the value the pointer is identified with
+				spec.DeclareNilPtr(l.Ty.Name)
+				t = sx.App("isnilp_"+l.Ty.Name, l.T)
+			} else {
+				t = sx.Bool(false)
+			}
 		default:
 			t = sx.Bool(false)
 		}
